@@ -10,7 +10,7 @@ from sx.shims import STUBS  # noqa
 from .layout import LayoutShape
 
 ID = 'C05'
-BUDGET_S = {'quick': 170, 'thorough': 2400}
+BUDGET_S = {'quick': 170, 'thorough': 3600}
 SHAPE_WALL_S = {'quick': 150, 'thorough': 900}
 FAMILY = ('UNIT: MemoryZone.__init__, current_address setter, MemoryZoneManager.__init__/create_zone with symbolic '
           'bounds for address widths {4,8,12,16,32,64}; PIPE: zone layouts (predefined with symbolic bounds, redefined '
@@ -205,7 +205,7 @@ def random_zone_programs(tier, seed):
     import random
     rnd = random.Random(500 + seed)
     S = []
-    for i in range(16 if tier == 'quick' else 400):
+    for i in range(16 if tier == 'quick' else 1500):
         zones = {'ZA': (Sym('zas', 0x100, 0x140), Sym('zae', 0x120, 0x180)), 'ZB': (0x200, Sym('zbe', 0x200, 0x240))}
         prog = []
         nl = 0
